@@ -28,7 +28,10 @@ def run(m):
             b=subprocess.run(['go','build','./...'],cwd=os.path.join(repo,moddir),env=ENV,capture_output=True,text=True)
             if b.returncode!=0: return (m['name'],'BROKEN','does not compile: '+b.stderr[-400:])
         e=dict(ENV, HIVECHECK_REPO=repo, HIVECHECK_VERIF=ver, HIVECHECK_WORK=os.path.join(d,'work'))
-        p=subprocess.run(['/verif/.bin/hivecheck','-property',m['prop'],'-tier',m.get('tier','quick')],env=e,capture_output=True,text=True)
+        try:
+            p=subprocess.run(['/verif/.bin/hivecheck','-property',m['prop'],'-tier',m.get('tier','quick')],env=e,capture_output=True,text=True,timeout=600)
+        except subprocess.TimeoutExpired:
+            p=subprocess.CompletedProcess([],2,'','checker did not finish within 600 s (hang)')
         out=p.stdout+p.stderr
         failed=[l for l in out.splitlines() if 'FAILED' in l]
         if m.get('silent'):
